@@ -59,6 +59,10 @@ class Environment(object):
                 self.conn = Client(addr)
             except Exception as e:
                 if time.time() - start > 5:
+                    # the process that never answered must not stay behind
+                    # next to the server of the next attempt
+                    self.proc.kill()
+                    self.proc.wait()
                     raise Exception('Supp server launching timeout exceed: ' + str(e))
 
                 time.sleep(0.3)
